@@ -1,8 +1,7 @@
-import re
 import itertools
 from enum import Enum
 
-from flamapy.core.models.ast import ASTOperation
+from flamapy.core.models.ast import ASTOperation, Node
 from flamapy.core.transformations import ModelToText
 from flamapy.metamodels.fm_metamodel.models import FeatureModel, Feature, Relation, Constraint
 
@@ -155,24 +154,31 @@ def get_cardinality_formula(relation: Relation) -> str:
 
 
 def get_constraint_formula(ctc: Constraint) -> str:
-    constraint_str = ctc.ast.pretty_str()
-    constraint_str = re.sub(rf"\b{ASTOperation.XOR.value}\b",
-                            PLWriter.LogicConnective.XOR.value, constraint_str)
-    constraint_str = re.sub(rf"\b{ASTOperation.NOT.value}\b",
-                            PLWriter.LogicConnective.NOT.value, constraint_str)
-    constraint_str = re.sub(rf"\b{ASTOperation.AND.value}\b",
-                            PLWriter.LogicConnective.AND.value, constraint_str)
-    constraint_str = re.sub(rf"\b{ASTOperation.OR.value}\b",
-                            PLWriter.LogicConnective.OR.value, constraint_str)
-    constraint_str = re.sub(rf"\b{ASTOperation.IMPLIES.value}\b",
-                            PLWriter.LogicConnective.IMPLIES.value, constraint_str)
-    constraint_str = re.sub(rf"\b{ASTOperation.EQUIVALENCE.value}\b",
-                            PLWriter.LogicConnective.EQUIVALENCE.value, constraint_str)
-    constraint_str = re.sub(rf"\b{ASTOperation.REQUIRES.value}\b",
-                            PLWriter.LogicConnective.IMPLIES.value, constraint_str)
-    constraint_str = re.sub(
-        rf"\b{ASTOperation.EXCLUDES.value}\b",
-        f'{PLWriter.LogicConnective.IMPLIES.value} {PLWriter.LogicConnective.NOT.value}',
-        constraint_str
-    )
-    return constraint_str
+    return get_node_formula(ctc.ast.root)
+
+
+def get_node_formula(node: Node) -> str:
+    """Formula of a constraint: the layout of Node.pretty_str with the logic connectives.
+
+    Only operator nodes are translated, so a feature may be named like a connective.
+    """
+    if not node.is_op() or node.is_aggregate_op():
+        return node.pretty_str()
+    connectives = {
+        ASTOperation.XOR: PLWriter.LogicConnective.XOR.value,
+        ASTOperation.NOT: PLWriter.LogicConnective.NOT.value,
+        ASTOperation.AND: PLWriter.LogicConnective.AND.value,
+        ASTOperation.OR: PLWriter.LogicConnective.OR.value,
+        ASTOperation.IMPLIES: PLWriter.LogicConnective.IMPLIES.value,
+        ASTOperation.EQUIVALENCE: PLWriter.LogicConnective.EQUIVALENCE.value,
+        ASTOperation.REQUIRES: PLWriter.LogicConnective.IMPLIES.value,
+        ASTOperation.EXCLUDES: (f'{PLWriter.LogicConnective.IMPLIES.value} '
+                                f'{PLWriter.LogicConnective.NOT.value}'),
+    }
+    connective = connectives.get(node.data, node.data.value)
+    operands = [f'({get_node_formula(operand)})' if operand.is_binary_op()
+                else get_node_formula(operand)
+                for operand in (node.left, node.right) if operand is not None]
+    if node.is_unary_op():
+        return f'{connective} {operands[0]}'
+    return f' {connective} '.join(operands)
